@@ -1,12 +1,91 @@
-(* C13 - provisional: replaced when the per-node proof files are complete. *)
-From Coq Require Import List ZArith.
+(* C13 - rate_limit spaces emissions by at least the interval and keeps order; delay keeps order and count.
+   Statements restated from the proof files by harness/mkprops.py; every theorem quantifies over ALL action
+   lists (schedules of emits, consumer completions, task completions, time advances). *)
+From Coq Require Import List ZArith Bool Arith Permutation Sorted.
 From SZ Require Import Base.Values.
 From SZ Require Import Sync.Nodes.
 From SZ Require Import Async.Core.
-From SZ Require Import Async.Plain.
+From SZ Require Async.RateLimitProofs.
+From SZ Require Async.DelayProofs.
 Import ListNotations.
 
-Theorem C13_callback_only_at_zero : forall s m r,
-  In r (rfired (rc_release s m 1)) -> In r (rfired s) \/ (rcnt s r - mocc m r <= 0)%Z /\ (1 <= mocc m r)%Z.
-Proof. exact rfired_release_new. Qed.
-Print Assumptions C13_callback_only_at_zero.
+(* from Async.RateLimitProofs *)
+Section S_rl_spacing_RateLimitProofs.
+Import SZ.Async.RateLimitProofs.
+Theorem C13_rl_spacing : forall (i : Z) (sync : bool) (acts : list act) (s : RateLimit.rst) (outs : list (list (Z * val * list mdi) * list nat)), (0 < i)%Z -> run_steps RateLimit.rate_limit_model (RateLimit.r_init i sync) acts = (s, outs) -> spaced i (deliv_times (all_deliv outs)).
+Proof. exact (@rl_spacing). Qed.
+End S_rl_spacing_RateLimitProofs.
+Print Assumptions C13_rl_spacing.
+
+(* from Async.RateLimitProofs *)
+Section S_rl_fifo_RateLimitProofs.
+Import SZ.Async.RateLimitProofs.
+Theorem C13_rl_fifo : forall (i : Z) (sync : bool) (acts : list act) (s : RateLimit.rst) (outs : list (list (Z * val * list mdi) * list nat)), (0 < i)%Z -> run_steps RateLimit.rate_limit_model (RateLimit.r_init i sync) acts = (s, outs) -> deliv_items (all_deliv outs) ++ r_pending s = ins_of acts.
+Proof. exact (@rl_fifo). Qed.
+End S_rl_fifo_RateLimitProofs.
+Print Assumptions C13_rl_fifo.
+
+(* from Async.RateLimitProofs *)
+Section S_rl_idle_no_delay_RateLimitProofs.
+Import SZ.Async.RateLimitProofs.
+Theorem C13_rl_idle_no_delay : forall (s : RateLimit.rst) (src : nat) (x : val) (m : list mdi), (RateLimit.r_next s <= RateLimit.r_now s)%Z -> fst (snd (RateLimit.r_step s (AEmit src x m))) = [(RateLimit.r_now s, x, m)].
+Proof. exact (@rl_idle_no_delay). Qed.
+End S_rl_idle_no_delay_RateLimitProofs.
+Print Assumptions C13_rl_idle_no_delay.
+
+(* from Async.RateLimitProofs *)
+Section S_rl_done_sync_RateLimitProofs.
+Import SZ.Async.RateLimitProofs.
+Theorem C13_rl_done_sync : forall (i : Z) (sync : bool) (acts : list act) (s : RateLimit.rst) (outs : list (list (Z * val * list mdi) * list nat)), (0 < i)%Z -> run_steps RateLimit.rate_limit_model (RateLimit.r_init i sync) acts = (s, outs) -> sync = true -> RateLimit.r_flight s = [] /\ Forall (fun o : list (Z * val * list mdi) * list nat => length (snd o) = length (fst o)) outs /\ all_done outs = seq 0 (length (all_deliv outs)).
+Proof. exact (@rl_done_sync). Qed.
+End S_rl_done_sync_RateLimitProofs.
+Print Assumptions C13_rl_done_sync.
+
+(* from Async.RateLimitProofs *)
+Section S_rl_sleepers_spaced_RateLimitProofs.
+Import SZ.Async.RateLimitProofs.
+Theorem C13_rl_sleepers_spaced : forall (i : Z) (sync : bool) (acts : list act) (s : RateLimit.rst) (outs : list (list (Z * val * list mdi) * list nat)), (0 < i)%Z -> run_steps RateLimit.rate_limit_model (RateLimit.r_init i sync) acts = (s, outs) -> spaced i (deliv_times (all_deliv outs) ++ map s_due (RateLimit.r_sleep s)) /\ Forall (fun t : Z => (RateLimit.r_now s < t)%Z) (map s_due (RateLimit.r_sleep s)) /\ Forall (fun t : Z => (t <= RateLimit.r_now s)%Z) (deliv_times (all_deliv outs)).
+Proof. exact (@rl_sleepers_spaced). Qed.
+End S_rl_sleepers_spaced_RateLimitProofs.
+Print Assumptions C13_rl_sleepers_spaced.
+
+(* from Async.RateLimitProofs *)
+Section S_rl_idle_no_sleepers_RateLimitProofs.
+Import SZ.Async.RateLimitProofs.
+Theorem C13_rl_idle_no_sleepers : forall (i : Z) (sync : bool) (acts : list act) (s : RateLimit.rst) (outs : list (list (Z * val * list mdi) * list nat)), (0 < i)%Z -> run_steps RateLimit.rate_limit_model (RateLimit.r_init i sync) acts = (s, outs) -> (RateLimit.r_next s <= RateLimit.r_now s)%Z -> RateLimit.r_sleep s = [].
+Proof. exact (@rl_idle_no_sleepers). Qed.
+End S_rl_idle_no_sleepers_RateLimitProofs.
+Print Assumptions C13_rl_idle_no_sleepers.
+
+(* from Async.DelayProofs *)
+Section S_delay_fifo_DelayProofs.
+Import SZ.Async.DelayProofs.
+Theorem C13_delay_fifo : forall (interval : Z) (sync : bool) (acts : list act) (s : nm_state Delay.delay_model) (outs : list (list (Z * val * list mdi) * list nat)), run_steps Delay.delay_model (Delay.d_init interval sync) acts = (s, outs) -> deliv_items (all_deliv outs) ++ d_pending s = ins_of acts.
+Proof. exact (@delay_fifo). Qed.
+End S_delay_fifo_DelayProofs.
+Print Assumptions C13_delay_fifo.
+
+(* from Async.DelayProofs *)
+Section S_delay_done_DelayProofs.
+Import SZ.Async.DelayProofs.
+Theorem C13_delay_done : forall (interval : Z) (sync : bool) (acts : list act) (s : nm_state Delay.delay_model) (outs : list (list (Z * val * list mdi) * list nat)), run_steps Delay.delay_model (Delay.d_init interval sync) acts = (s, outs) -> all_done outs = seq 0 (n_emits acts).
+Proof. exact (@delay_done). Qed.
+End S_delay_done_DelayProofs.
+Print Assumptions C13_delay_done.
+
+(* from Async.DelayProofs *)
+Section S_delay_times_sorted_DelayProofs.
+Import SZ.Async.DelayProofs.
+Theorem C13_delay_times_sorted : forall (interval : Z) (sync : bool) (acts : list act) (s : nm_state Delay.delay_model) (outs : list (list (Z * val * list mdi) * list nat)), run_steps Delay.delay_model (Delay.d_init interval sync) acts = (s, outs) -> StronglySorted Z.le (deliv_times (all_deliv outs)) /\ Forall (fun t : Z => (t <= Delay.d_now s)%Z) (deliv_times (all_deliv outs)).
+Proof. exact (@delay_times_sorted). Qed.
+End S_delay_times_sorted_DelayProofs.
+Print Assumptions C13_delay_times_sorted.
+
+(* from Async.DelayProofs *)
+Section S_delay_no_stall_DelayProofs.
+Import SZ.Async.DelayProofs.
+Theorem C13_delay_no_stall : forall (interval : Z) (sync : bool) (acts : list act) (s : nm_state Delay.delay_model) (outs : list (list (Z * val * list mdi) * list nat)), (0 < interval)%Z -> run_steps Delay.delay_model (Delay.d_init interval sync) acts = (s, outs) -> forall t0 : Z, Delay.d_mode s = Delay.DWait t0 -> d_pending s = [].
+Proof. exact (@delay_no_stall). Qed.
+End S_delay_no_stall_DelayProofs.
+Print Assumptions C13_delay_no_stall.
+
